@@ -2142,15 +2142,101 @@ CACHE_WRITE = guard_set(Contract(
           'the bounded stand-in cache_forest'), write_open=cache_write_guard)
 CACHE_WRITE.exit_obligations = cache_write_exit
 CONTRACTS.append(CACHE_WRITE)
-CONTRACTS.append(Contract(
-    'file_builder.cache.Cache._operation_to_json', props=['C16'], trusted=True,
+OP_TO_JSON = Contract(
+    'file_builder.cache.Cache._operation_to_json', props=['C16'],
     params={'self': OBJ('Cache'), 'operation': OBJ('Operation')}, returns=PYV,
     ensures=lambda c: no_effect(c) + [
-        ('serialised-logged', c.gnew('ser') == z3.Store(c.gold('ser'), c.operation, True))],
+        ('serialised-log-grows', ForAll([qr_], Implies(c.gold('ser')[qr_], c.gnew('ser')[qr_]))),
+        ('is-a-dict', J.is_dict(c.res))],
     raises=[ExcSpec('RuntimeError', ensures=no_effect)],
     modifies=lambda c: ['g:ser'],
-    notes='serialisation of one record tree (recursion: bounded stand-in); logs the record in the '
-          'scratch ghost `ser`'))
+    notes='dispatch on the record class; logs the record in the scratch ghost `ser` (marker '
+          'update).  Verified since round 4 together with the two field-wise serialisers; what '
+          'stays with the bounded stand-in cache_forest is the content of the `suboperations` '
+          'list (a Python list of JSON values is abstract in the model) and the reader')
+OP_TO_JSON.ghost_updates = lambda c: {'ser': z3.Store(c.gnew('ser'), c.operation, True)}
+OP_TO_JSON.ghost_updates_on = 'ret'
+CONTRACTS.append(OP_TO_JSON)
+
+# ---- field-wise contracts of the hand-written serialisers (C16: "a dropped or renamed field") ------
+def jfield(d, name):
+    return J.klookup(PyV.PStr(str_lit(name)), PyV.kvs(d))
+
+
+def jhas(d, name):
+    return J.kmem(PyV.PStr(str_lit(name)), PyV.kvs(d))
+
+
+OSTR = SH['SimpleOperation.exception_type_str'].sort() if hasattr(SH['SimpleOperation.exception_type_str'], 'sort') else None
+SIMPLE_TO_JSON = Contract(
+    'file_builder.cache.Cache._simple_operation_to_json', props=['C16'],
+    params={'self': OBJ('Cache'), 'operation': OBJ('SimpleOperation')}, returns=PYV,
+    ensures=lambda c: no_effect(c) + [
+        ('is-a-dict', J.is_dict(c.res)),
+        ('args-written', And(jhas(c.res, 'args'),
+                             jfield(c.res, 'args') == c.old('Operation.args', c.operation))),
+        ('return-value-written', And(
+            jhas(c.res, 'returnValue'),
+            jfield(c.res, 'returnValue') == c.old('Operation.return_value', c.operation))),
+        ('type-written', And(jhas(c.res, 'type'), jfield(c.res, 'type') == PyV.PStr(
+            c.old('SimpleOperation.name', c.operation)))),
+        ('failure-marker-written-iff-recorded', And(
+            jhas(c.res, 'exceptionType') == OSTR.is_some(
+                c.old('SimpleOperation.exception_type_str', c.operation)),
+            Implies(jhas(c.res, 'exceptionType'),
+                    jfield(c.res, 'exceptionType') == PyV.PStr(OSTR.val(
+                        c.old('SimpleOperation.exception_type_str', c.operation))))))],
+    modifies=NOTHING)
+CONTRACTS.append(SIMPLE_TO_JSON)
+
+
+COMPLEX_TO_JSON = Contract(
+    'file_builder.cache.Cache._complex_operation_to_json', props=['C16'],
+    params={'self': OBJ('Cache'), 'operation': OBJ('ComplexOperation')}, returns=PYV,
+    ensures=lambda c: no_effect(c) + [
+        ('is-a-dict', J.is_dict(c.res)),
+        ('args-written', And(jhas(c.res, 'args'),
+                             jfield(c.res, 'args') == c.old(ARGS, c.operation))),
+        ('kwargs-written', And(jhas(c.res, 'kwargs'),
+                               jfield(c.res, 'kwargs') == c.old(KWARGS_F, c.operation))),
+        ('function-name-written', And(jhas(c.res, 'funcName'), jfield(c.res, 'funcName')
+                                      == PyV.PStr(c.old(FN, c.operation)))),
+        ('return-value-written', And(
+            jhas(c.res, 'returnValue'),
+            jfield(c.res, 'returnValue') == c.old('Operation.return_value', c.operation))),
+        ('suboperations-written', jhas(c.res, 'suboperations')),
+        ('failure-markers-written-iff-set', And(
+            jhas(c.res, 'raised') == c.old(RAISED, c.operation),
+            Implies(jhas(c.res, 'raised'), jfield(c.res, 'raised') == PyV.PBool(True)),
+            jhas(c.res, 'setupFailed') == c.old(SETUPF, c.operation),
+            Implies(jhas(c.res, 'setupFailed'),
+                    jfield(c.res, 'setupFailed') == PyV.PBool(True)))),
+        ('type-written', And(jhas(c.res, 'type'), jfield(c.res, 'type') == PyV.PStr(If(
+            cls_of(c.operation) == CLS['BuildFileOperation'], str_lit('build_file'),
+            str_lit('subbuild'))))),
+        ('output-fields-written', Implies(cls_of(c.operation) == CLS['BuildFileOperation'], And(
+            jhas(c.res, 'filename'),
+            jfield(c.res, 'filename') == PyV.PStr(c.old('BuildFileOperation.filename',
+                                                        c.operation)),
+            jhas(c.res, 'fileComparison'),
+            jhas(c.res, 'fileComparisonResult'),
+            jfield(c.res, 'fileComparisonResult')
+            == c.old('BuildFileOperation.file_comparison_result', c.operation)))),
+        ('serialised-log-grows', ForAll([qr_], Implies(c.gold('ser')[qr_], c.gnew('ser')[qr_]))),
+        ('every-suboperation-serialised', ForAll([qi_], Implies(
+            And(0 <= qi_, qi_ < z3.Length(c.old(SUBOPS, c.operation))),
+            c.gnew('ser')[c.old(SUBOPS, c.operation)[qi_]])))],
+    raises=[ExcSpec('RuntimeError', ensures=no_effect)],
+    modifies=lambda c: ['g:ser'],
+    local_types={'suboperations_json': LIST(PYV)},
+    lemmas=['ksorted_nil', 'kmem_nil', 'kmem_kput', 'klookup_kput', 'kput_sorted'],
+    loops={0: LoopSpec(inv=lambda c: no_effect_loop(c) + [
+        ('same-list', c.loop['seq'] == c.entry(SUBOPS, c.operation)),
+        ('serialised-so-far', ForAll([qi_], Implies(
+            And(0 <= qi_, qi_ < c.loop['i']), c.gnew('ser')[c.loop['seq'][qi_]]))),
+        ('log-only-grows', ForAll([qr_], Implies(c.gentry('ser')[qr_], c.gnew('ser')[qr_])))])})
+CONTRACTS.append(COMPLEX_TO_JSON)
+
 
 SET_CREATED = Contract(
     M + '_set_created_dirs', props=['C12', 'C02', 'C10'],
